@@ -164,7 +164,9 @@ func TestReplay(t *testing.T) {
 func TestGeneratedPrograms(t *testing.T) {
 	harness.Check(t, "programs", 30000, 1000000, func(rt *rapid.T) {
 		v := rapid.SampledFrom(px.KeyVersions).Draw(rt, "version")
-		c := progs.Draw(rt, v, progs.Options(v), 1, 4)
+		o := progs.Options(v)
+		o.LeadHTML = progs.Padding(rt)
+		c := progs.Draw(rt, v, o, 1, 4)
 		excl := 0
 		lay := c.G.Render(c.Root, progs.Policy(rt, phpgen.PolicyFull, &excl))
 		src := lay.Src
